@@ -1,3 +1,4 @@
+import HcipyVerif.Model.FftWeights
 import HcipyVerif.Model.Proto
 import HcipyVerif.Model.FftGrid
 import HcipyVerif.Model.FftIndex
@@ -41,6 +42,9 @@ Line-protocol front end of the C01 model.
   the per-axis content of `AxesReproduced` in `selection_sound'`) and the rest is the output axis
   that plan reports (`zeroT` = its zero in turns + the reconstructed shift in turns); `err value`
   when the requested axis is not an FFT axis of the input axis.
+* `impnw std|emu [N…] [M…] [Mo…] [δ…] [z…] [dT…] [s…] [w…] [rel…] [j…]` — `fastForwardNW`
+  (`Model/FftWeights.lean`): forward on a grid with per-point weights; `[w…]` as for `impn` (product
+  = the cell area kept in `shift_input`), `[rel…]` the `relative_weights` array, row-major.
 * `load shifts N M [buf…] [f…]` — `loadArray` (`Model/FftState.lean`): the persistent internal array
   after the first statements of `forward` from previous contents `buf` (then `ifftshift` when
   `shifts = 1`, as the code rebinds `internal_array`); exact rationals.
@@ -284,6 +288,22 @@ def step (st : St) : List String → St × String
             else (allIdx (gs.map (·.N))).map fun ks => fastBackwardN T E gs (impulseN js) ks
           (st, "ok " ++ showPSums outs)
     | _, _, _, _, _, _, _, _, _ => (st, "bad-op")
+  | ["impnw", cfg, Ns, Ms, Mos, ds, zs, dTs, ss, ws, rels, js] =>
+    match parseNatList? Ns, parseNatList? Ms, parseNatList? Mos, parseRatList? ds, parseRatList? zs,
+      parseRatList? dTs, parseRatList? ss, parseRatList? ws, parseRatList? rels, parseNatList? js with
+    | some Ns, some Ms, some Mos, some ds, some zs, some dTs, some ss, some ws, some rels, some js =>
+      if cfg != "std" && cfg != "emu" then (st, "bad-op") else
+      match zipCfg (cfg == "emu") Ns Ms Mos ds zs dTs ss ws with
+      | none => (st, "bad-op")
+      | some gs =>
+        if js.length != gs.length then (st, "bad-op") else
+        if gs.any (fun g => g.M = 0 || g.N > g.M || g.Mo > g.M) || rels.length != prodList Ns then
+          (st, "err value") else
+        let rel : List Nat → PSum := fun idx => PSum.ofRat (rels.getD (flatIdx Ns idx) 0)
+        let outs := (allIdx (gs.map (·.Mo))).map fun ks =>
+          fastForwardNW PSum.turns PSum.rad gs rel (impulseN js) ks
+        (st, "ok " ++ showPSums outs)
+    | _, _, _, _, _, _, _, _, _, _ => (st, "bad-op")
   | ["load", sh, N, M, bufs, fs] =>
     match parseBool? sh, parseNat? N, parseNat? M, parseRatList? bufs, parseRatList? fs with
     | some sh, some N, some M, some buf, some f =>
